@@ -17,8 +17,8 @@ import time
 import vlib
 from vlib import coq_str, coq_list, canon_hash
 
-TARGETS = ["bilinear", "vector3d", "logical", "join", "union", "equation", "norm", "polar", "shared_bc"]
-NPERM = {"bilinear": 6, "vector3d": 6, "logical": 2, "join": 4, "union": 24, "equation": 24, "norm": 6, "polar": 1,
+TARGETS = ["iface_mapped", "bilinear", "vector3d", "logical", "join", "union", "equation", "norm", "polar", "shared_bc"]
+NPERM = {"iface_mapped": 2, "bilinear": 6, "vector3d": 6, "logical": 2, "join": 4, "union": 24, "equation": 24, "norm": 6, "polar": 1,
          "shared_bc": 1}
 # (class, name) -> attribute digest used by each target: what a colliding history must differ from
 TARGET_OBJS = {
@@ -31,6 +31,7 @@ TARGET_OBJS = {
     "norm": [("Domain", "Omega", "dim=2"), ("Space", "V", "scalar,dim=2,kind=None")],
     "polar": [("Mapping", "M", "dim=2")],
     "shared_bc": [],
+    "iface_mapped": [("Patch", "A", "dim=2"), ("Patch", "B", "dim=2"), ("Patch", "C", "dim=2")],
 }
 
 
